@@ -3,7 +3,9 @@ package main
 // C09 driver: feeds trust policy documents of both kinds to the real
 // (*OCIDocument).Validate / (*BlobDocument).Validate (as Go structs and decoded
 // from JSON text written with literal field names), to
-// verifier.NewVerifierWithOptions and, for accepted documents, to
+// verifier.NewVerifierWithOptions (and, in the constructors family, to the same
+// with a nil trust store and to the deprecated verifier.New /
+// verifier.NewWithOptions) and, for accepted documents, to
 // SignatureVerification.GetVerificationLevel of every statement; prints
 // (input, observation) cases for C09_Model.
 
